@@ -16,7 +16,7 @@ prop = [json.loads(l) for l in open("/verif/properties.jsonl") if json.loads(l)[
 files = [f for f in prop["anchors"]["files"] if f.endswith(".rs")]
 if only:
     files = [f for f in files if any(f.endswith(o) for o in only)]
-lcov = subprocess.run([BIN + "/llvm-cov", "export", "--format=lcov", COV + "/target/release/vdrv", "-instr-profile=%s/prof/%s.profdata" % (COV, pid)]
+lcov = subprocess.run([BIN + "/llvm-cov", "export", "--format=lcov", COV + "/target/release/vdrv", "-object", COV + "/target/release/vsrv", "-instr-profile=%s/prof/%s.profdata" % (COV, pid)]
                       + ["/repo/" + f for f in files], capture_output=True, text=True).stdout
 hits, cur = {}, None
 for line in lcov.splitlines():
